@@ -46,6 +46,22 @@ def tainted(e):
     return False
 
 
+def _mentions_arg(e, i):
+    return any(x == ("arg", i) for x in subexprs(e))
+
+
+def _pos_bounded(g):
+    """a3 (the position) was compared with the length of the input on this path with the outcome position <= len"""
+    for a, o in g.items():
+        if a[0] == "lt":
+            l, r = a[1], a[2]
+            if l == ("arg", 3) and r[0] == "len" and o is True:
+                return True
+            if r == ("arg", 3) and l[0] == "len" and o is False:
+                return True
+    return False
+
+
 def _len_aliases(ln):
     """len(X.pattern) is mirrored by the field X.len of ReCompiler (alias validated by X-STRIP-GATE / FLAG-Q-XPATH)."""
     out = [ln]
@@ -84,6 +100,7 @@ class SiteScan:
         self.ctx = ctx
         self.body = body
         self.sites = {}  # bb -> {"kind":..., "visits": n, "undischarged": n, "why": str}
+        self._is_matches_iter = body.impl_trait == "operation::OperationControl" and body.name == "matches_iter"
         self._collect_sites()
         self._walk()
         self._static_fallback()
@@ -150,6 +167,8 @@ class SiteScan:
             if kind.startswith("Overflow:Add"):
                 if any(tainted(o) for o in ops):
                     return False, "addition on a magnitude-tainted operand (quantifier bound / derived length)"
+                if self._is_matches_iter and any(_mentions_arg(o, 3) for o in ops) and not _pos_bounded(g):
+                    return False, "addition on the position parameter of matches_iter without a preceding test against the input length (positions are at most len(search) only by the invariant POSITION-RANGE)"
                 return True, ""
             if kind.startswith("Overflow:Mul"):
                 if any(tainted(o) for o in ops):
